@@ -49,13 +49,38 @@ def gen_ovld(seed, index):
     corpus = gen.gen_corpus(rng, spec, FEAT)
     ops = []
     regs = []
+    # a method that lets the harness change the method set *during* a call and then recurses
+    # (not in worlds with type[...] positions: whether a position is keyed with type() or by the
+    # passed class itself is a property of the whole method set, baked into the call sites of a
+    # body that is already running)
+    can_mut = spec["meta"]["min_ar"] == 1 and "type" not in spec["meta"]["flavour"]
+    kid_pool = [c["args"][0] for c in corpus if len(c.get("args", [])) == 1 and not c.get("kw")]
+    if can_mut:
+        gen.extra_class(spec, "KM")
+        spec["methods"]["mmut"] = {"params": [["a0", "pos", ["c", "KM"], False]], "prio": 50,
+                                   "body": ["mut_rec"]}
+        ops.append({"op": "register", "mid": "mmut"})
     for m in rng.sample(pool, rng.randint(1, min(3, len(pool)))):
         ops.append({"op": "register", "mid": m})
         regs.append(m)
     n = rng.randint(4, 24)
     last_obs = None
     while len(ops) < n:
-        k = weighted(rng, [("obs", 45), ("reg", 22), ("unreg", 15), ("rereg", 10), ("prio", 8)])
+        k = weighted(rng, [("obs", 45), ("reg", 22), ("unreg", 15), ("rereg", 10), ("prio", 8),
+                           ("call_mut", 12 if (can_mut and kid_pool) else 0)])
+        if k == "call_mut":
+            if regs and rng.random() < 0.4:
+                m = rng.choice(regs)
+                mut = {"op": "unregister", "mid": m}
+                regs = [x for x in regs if x != m]
+            else:
+                m = rng.choice(pool)
+                mut = {"op": "register", "mid": m}
+                regs.append(m)
+            kids = [rng.choice(kid_pool) for _ in range(rng.randint(1, 2))]
+            ops.append({"op": "call_mut", "kids": kids, "mut": mut})
+            last_obs = None
+            continue
         if last_obs is not None and rng.random() < 0.5:
             # mutate, then observe the same call again
             k2 = weighted(rng, [("reg", 5), ("unreg", 3), ("rereg", 2)])
@@ -108,6 +133,55 @@ def execute_ovld(scen):
     mut_after_obs = False
     seen_obs = False
     for i, op in enumerate(scen["ops"]):
+        if op["op"] == "call_mut":
+            # f(KM(kids)) runs mmut, which applies the mutation and then recurses on the kids:
+            # the nested calls are "later calls" and must behave as on a fresh function built
+            # from the method set after the mutation
+            pending = [op["mut"]]
+            applied = []
+
+            def MUT():
+                if pending:
+                    m = pending.pop()
+                    applied.append(h.apply(m))
+
+            h.w.mod.MUT = MUT
+            s1 = model_apply(regs, op["mut"])
+            out = h.w.call("f", {"args": [["n", "KM", 0, op["kids"]]]})
+            h.w.mod.MUT = lambda: None
+            nobs += 1
+            seen_obs = True
+            mut_after_obs = True
+            if not applied:
+                violation = {"clause": "harness: the in-call mutation did not run", "op_index": i,
+                             "observed": out, "symptom": "harness", "level": "ovld"}
+                break
+            regs = s1
+            log, res, exp = ["mmut"], [], None
+            for kid in op["kids"]:
+                r = ref_outcomes(spec, regs, [{"args": [kid]}], scen["label"])[0]
+                log = log + r[1]
+                if r[0] != "ok":
+                    if r[2] == ["other", "RecursionError"]:
+                        log = [x for x in log if x != "..."][:2] + ["..."]  # (as World.call truncates)
+                    exp = ["err", log, r[2]]
+                    break
+                res.append(r[2])
+            if exp is None:
+                exp = ["ok", log, ["mmut", res]]
+            trace.append(out)
+            if applied[0][0] != "ok":
+                violation = {"clause": "a valid change of the method set was refused",
+                             "op_index": i, "op": op, "result": applied[0], "symptom": "refused",
+                             "level": "ovld"}
+                break
+            if out != exp:
+                violation = {"clause": "calls nested in a method that changed the method set differ from a "
+                                       "freshly built function", "op_index": i, "op": op,
+                             "observed": out, "expected": exp, "regs": regs,
+                             "symptom": symptom(out, exp) + ":in-call", "level": "ovld"}
+                break
+            continue
         if op["op"] == "call":
             out = h.apply(op)
             ref = ref_outcomes(spec, regs, [op["c"]], scen["label"])[0]
